@@ -169,8 +169,8 @@ pub fn scenario(fault: Fault, trig: Trigger, queue_nonempty: bool, after: &[usiz
             expected = "norecipient:-".into();
         }
         Fault::Timeout => {
-            fault_action = Some(Action::Spin { ms: 250 });
-            spec.timeout_ms = 40;
+            fault_action = Some(Action::Spin { ms: 600 });
+            spec.timeout_ms = 150;
             expected = "timeout".into();
         }
         Fault::OutOfSync => {
@@ -308,6 +308,14 @@ fn judge(rep: &mut Report, sc: &Scenario, tr: &bench::Trace, replay: &str, label
             let phase = if calls.iter().position(|x| x.s_call == c.s_call).unwrap() > fidx { "after-fatal-error" } else { "at-fault" };
             viol(format!("C11/api-call-panicked-{}", phase), format!("call {:?} panicked: {}", bench::Cmd::Step.clone_if(c.idx, &tr.spec), p));
         }
+    }
+    // A step timeout is a wall-clock event: on an overloaded machine a healthy
+    // call before the scripted overrun (init included) may itself exceed the
+    // timeout. That says nothing about the property: the case is inconclusive.
+    if sc.expected == "timeout" && calls[..fidx.min(calls.len())].iter().any(|c| c.res == "timeout") {
+        drop(viol);
+        rep.inconclusive.push(format!("[{} {}] a call before the scripted overrun exceeded the wall-clock step timeout (machine load); case not judged", label, sc.desc));
+        return;
     }
     if fidx >= calls.len() {
         viol("C11/harness-fault-not-reached".into(), format!("the run stopped before the faulting call; outcomes: {:?}", calls.iter().map(|c| c.res.clone()).collect::<Vec<_>>()));
@@ -514,7 +522,7 @@ pub fn run(opts: &Opts) -> Report {
         judge(&mut rep, &sc, &tr, &replay, &ex.label);
         if fault == Fault::Timeout && !cfg!(miri) {
             // Let the abandoned computation finish before the next case.
-            std::thread::sleep(std::time::Duration::from_millis(260));
+            std::thread::sleep(std::time::Duration::from_millis(620));
         }
         if rep.samples.len() < rep.max_samples && suf.len() == 3 {
             let outcomes: Vec<Json> = tr.outcomes.iter().map(|o| Json::Str(format!("{:?} -> {} (t={})", tr.spec.cmds[o.idx], o.res, o.t_after))).collect();
